@@ -682,6 +682,22 @@ impl Built {
                 let ps: Vec<Predicate> = preds.iter().map(|p| self.pred(p)).collect();
                 self.solver.add_clause(ps).is_ok()
             }
+            Cons::ViewClause { atoms } => {
+                assert!(matches!(mode, Mode::Post));
+                let ps: Vec<Predicate> = atoms
+                    .iter()
+                    .map(|p| {
+                        let view = self.term(&p.term);
+                        match p.kind {
+                            PKind::Ge => pumpkin_solver::predicate!(view >= p.val),
+                            PKind::Le => pumpkin_solver::predicate!(view <= p.val),
+                            PKind::Eq => pumpkin_solver::predicate!(view == p.val),
+                            PKind::Ne => pumpkin_solver::predicate!(view != p.val),
+                        }
+                    })
+                    .collect();
+                self.solver.add_clause(ps).is_ok()
+            }
         }
     }
 
